@@ -34,32 +34,32 @@ var cellPool = []string{"a", "b", "hello", "x y", "", "42", "3.5", "Z"}
 func genTable(t *rapid.T, label string) string {
 	var b strings.Builder
 	b.WriteString("id,v,s\n")
-	n := rapid.IntRange(0, 5).Draw(t, label+"rows")
-	if fw.Chance(t, label+"big", 10) {
-		n = rapid.IntRange(200, 400).Draw(t, label+"bigrows")
+	n := fw.Range(t, label+"rows", 0, 5)
+	if fw.Pct(t, label+"big", 10) {
+		n = fw.Range(t, label+"bigrows", 200, 400)
 	}
 	for i := 0; i < n; i++ {
-		b.WriteString(fmt.Sprintf("%d,%d,%s\n", i+1, rapid.IntRange(0, 9).Draw(t, "v"), fw.Pick(t, "cell", cellPool)))
+		b.WriteString(fmt.Sprintf("%d,%d,%s\n", i+1, fw.Range(t, "v", 0, 9), fw.PickU(t, "cell", cellPool)))
 	}
 	return b.String()
 }
 
 func genCase(t *rapid.T) litterCase {
 	c := litterCase{Tables: map[string]string{}}
-	names := []string{"t1.csv", "t2.csv", "t3.csv"}[:rapid.IntRange(1, 3).Draw(t, "ntables")]
+	names := []string{"t1.csv", "t2.csv", "t3.csv"}[:fw.Range(t, "ntables", 1, 3)]
 	for _, n := range names {
 		c.Tables[n] = genTable(t, n)
 	}
-	c.ReadOnly = fw.Chance(t, "readonly", 35)
-	c.Ending = fw.Pick(t, "ending", []string{"signals", "signals", "signals", "success", "error", "exit", "exitcode", "timeout_lock", "timeout_rlock", "timeout_temp"})
-	ns := rapid.IntRange(1, 6).Draw(t, "nstmts")
-	tn := func() string { return "`" + fw.Pick(t, "target", names) + "`" }
+	c.ReadOnly = fw.Pct(t, "readonly", 35)
+	c.Ending = fw.PickU(t, "ending", []string{"signals", "signals", "signals", "success", "error", "exit", "exitcode", "timeout_lock", "timeout_rlock", "timeout_temp"})
+	ns := fw.Range(t, "nstmts", 1, 6)
+	tn := func() string { return "`" + fw.PickU(t, "target", names) + "`" }
 	ncreated := 0
 	for i := 0; i < ns; i++ {
 		if c.ReadOnly {
-			switch rapid.IntRange(0, 4).Draw(t, "rkind") {
+			switch fw.Range(t, "rkind", 0, 4) {
 			case 0, 1:
-				c.Stmts = append(c.Stmts, fmt.Sprintf("SELECT * FROM %s WHERE v >= %d", tn(), rapid.IntRange(0, 9).Draw(t, "k")))
+				c.Stmts = append(c.Stmts, fmt.Sprintf("SELECT * FROM %s WHERE v >= %d", tn(), fw.Range(t, "k", 0, 9)))
 			case 2:
 				c.Stmts = append(c.Stmts, fmt.Sprintf("SELECT a.id, b.s FROM %s a JOIN %s b ON a.id = b.id", tn(), tn()))
 			case 3:
@@ -71,15 +71,15 @@ func genCase(t *rapid.T) litterCase {
 			}
 			continue
 		}
-		switch rapid.IntRange(0, 8).Draw(t, "wkind") {
+		switch fw.Range(t, "wkind", 0, 8) {
 		case 0:
 			c.Stmts = append(c.Stmts, fmt.Sprintf("SELECT * FROM %s", tn()))
 		case 1, 2:
-			c.Stmts = append(c.Stmts, fmt.Sprintf("UPDATE %s SET v = v + 1 WHERE id %% 2 = %d", tn(), rapid.IntRange(0, 1).Draw(t, "par")))
+			c.Stmts = append(c.Stmts, fmt.Sprintf("UPDATE %s SET v = v + 1 WHERE id %% 2 = %d", tn(), fw.Range(t, "par", 0, 1)))
 		case 3:
 			c.Stmts = append(c.Stmts, fmt.Sprintf("INSERT INTO %s VALUES (%d, 1, 'n')", tn(), 900+i))
 		case 4:
-			c.Stmts = append(c.Stmts, fmt.Sprintf("DELETE FROM %s WHERE id = %d", tn(), rapid.IntRange(1, 4).Draw(t, "did")))
+			c.Stmts = append(c.Stmts, fmt.Sprintf("DELETE FROM %s WHERE id = %d", tn(), fw.Range(t, "did", 1, 4)))
 		case 5:
 			if ncreated < 2 {
 				ncreated++
@@ -100,20 +100,20 @@ func genCase(t *rapid.T) litterCase {
 	}
 	switch c.Ending {
 	case "error":
-		pos := rapid.IntRange(0, len(c.Stmts)).Draw(t, "errpos")
-		bad := fw.Pick(t, "bad", []string{"SELECT 1 / 0", "SELECT * FROM `nosuch.csv`", "SELECT nocolumn FROM `t1.csv`", "TRIGGER ERROR 70 'boom'", "INSERT INTO `t1.csv` VALUES (1)"})
+		pos := fw.Range(t, "errpos", 0, len(c.Stmts))
+		bad := fw.PickU(t, "bad", []string{"SELECT 1 / 0", "SELECT * FROM `nosuch.csv`", "SELECT nocolumn FROM `t1.csv`", "TRIGGER ERROR 70 'boom'", "INSERT INTO `t1.csv` VALUES (1)"})
 		c.Stmts = append(c.Stmts[:pos], append([]string{bad}, c.Stmts[pos:]...)...)
 	case "exit":
-		pos := rapid.IntRange(0, len(c.Stmts)).Draw(t, "exitpos")
+		pos := fw.Range(t, "exitpos", 0, len(c.Stmts))
 		c.Stmts = append(c.Stmts[:pos], append([]string{"EXIT"}, c.Stmts[pos:]...)...)
 	case "exitcode":
-		pos := rapid.IntRange(0, len(c.Stmts)).Draw(t, "exitpos")
+		pos := fw.Range(t, "exitpos", 0, len(c.Stmts))
 		c.Stmts = append(c.Stmts[:pos], append([]string{"EXIT 3"}, c.Stmts[pos:]...)...)
 	case "timeout_lock", "timeout_rlock", "timeout_temp":
-		c.LockOn = fw.Pick(t, "lockon", names)
+		c.LockOn = fw.PickU(t, "lockon", names)
 	}
-	if fw.Chance(t, "out", 25) {
-		c.Out = fw.Pick(t, "outkind", []string{"nonempty", "empty"})
+	if fw.Pct(t, "out", 25) {
+		c.Out = fw.PickU(t, "outkind", []string{"nonempty", "empty"})
 		if c.Out == "empty" {
 			// no SELECT output at all: only DML / declarations
 			var kept []string
